@@ -121,8 +121,30 @@ def check_C01(tier, seed):
                    extra_cov={"fate_vectors_enumerated_by_tlc": len(vecs), "generator_states": gst})
 
 
+def check_C07(tier, seed):
+    r = random.Random(seed * 7919 + 7)
+    quick = tier == "quick"
+    vecs, gst = V.gen("SeqGen.tla", "SeqGen_drop5.cfg" if quick else "SeqGen_fates6.cfg", "C07")
+    n_rand = 1200 if quick else 40000
+    scripts = []
+    reps = 6 if quick else 3
+    for v in vecs:
+        for _ in range(reps):
+            s = scen.antiamp_script(r, len(scripts), fate_vec=v)
+            scripts.append(s)
+    scripts += [scen.antiamp_script(r, len(scripts) + i) for i in range(n_rand)]
+    mcs = [("AntiAmp.tla", "MC_AntiAmp.cfg")]
+    return generic("C07", tier, seed, mcs, scripts,
+                   [("antiamp", "AntiAmpTrace.tla", "AntiAmpTrace.cfg")],
+                   ["bytes received are counted by the harness network (wire size of datagrams routed to the connection), not by quinn",
+                    "an address counts as validated for the spec only after the harness saw a processed Handshake packet or PATH_RESPONSE from it, or a token validated at accept",
+                    "ledger of an address restarts when the connection installs a new path generation for it"],
+                   extra_cov={"client_flight_fate_vectors_enumerated_by_tlc": len(vecs), "generator_states": gst})
+
+
 REGISTRY = {
     "C01": check_C01,
+    "C07": check_C07,
     "C08": check_C08,
 }
 
@@ -148,4 +170,8 @@ def replay_C01(scripts):
                    shards=1)
 
 
-REPLAY = {"C08": replay_C08, "C01": replay_C01}
+def replay_C07(scripts):
+    return generic("C07", "quick", 0, [], scripts, [("antiamp", "AntiAmpTrace.tla", "AntiAmpTrace.cfg")], [], shards=1)
+
+
+REPLAY = {"C08": replay_C08, "C01": replay_C01, "C07": replay_C07}
